@@ -20,6 +20,7 @@ EXPLANATION = (
     "(roclock_time - last_sync) * ppm / 10^6 as a linear form over its four inputs, and now() = "
     "time_from_underlying(roclock.now())."
     " OVL-4 also covers wrappers (SharedClock<OverlayClock<..>>): they must convert through the overlay's own port_timestamp_to_time, never through underlying()."
+    " OVL-6: OverlayClock::new starts as the identity map (shift 0, 0 ppm, anchored at the underlying clock's reading)."
 )
 NOT_DECIDED = "the numeric value of the rate (floating point rounding of elapsed * ppm / 10^6)"
 
